@@ -40,6 +40,8 @@ type Options struct {
 	// ZeroSerialTimeout: the serial client is built with WithSerialReadTimeout(0) (ReadTimeout is then only the harness's
 	// idea of how long a call may take).
 	ZeroSerialTimeout bool
+	// CtxExpired: calls are made with a context whose deadline has already passed.
+	CtxExpired bool
 	// WriteTimeout of the network clients (default 1 s).
 	WriteTimeout time.Duration
 	Hooks        modbus.ClientHooks
@@ -81,6 +83,7 @@ type Session struct {
 	Conn *xport.Conn
 	rt   time.Duration
 	dl   time.Duration
+	exp  bool
 	do   func(ctx context.Context, req packet.Request) (packet.Response, error)
 }
 
@@ -93,7 +96,7 @@ func NewSession(kind int, o Options) *Session {
 	if o.WriteTimeout == 0 {
 		o.WriteTimeout = time.Second
 	}
-	s := &Session{Kind: kind, Conn: conn, rt: o.ReadTimeout, dl: o.CtxDeadline}
+	s := &Session{Kind: kind, Conn: conn, rt: o.ReadTimeout, dl: o.CtxDeadline, exp: o.CtxExpired}
 	switch kind {
 	case TCP, RTUNet:
 		conn.Net = true
@@ -161,6 +164,11 @@ func (s *Session) Do(req packet.Request, script xport.Script) Outcome {
 		var c2 context.CancelFunc
 		ctx, c2 = context.WithTimeout(ctx, s.dl)
 		defer c2()
+	}
+	if s.exp {
+		var c3 context.CancelFunc
+		ctx, c3 = context.WithDeadline(ctx, time.Now().Add(-time.Second))
+		defer c3()
 	}
 	if TooManyHangs() {
 		// three calls of this process are already stuck for good: do not queue up more 20-second waits behind them
